@@ -26,8 +26,8 @@ UpTo(t, o) == {e \in Ents : K(t, e) /\ e[2] <= o[e[1]]}
 Phases == {"idle", "begin", "temp", "renamed", "swapped"}
 \* @type: (Str -> Int, Str -> Int) => Bool;
 Leq(a, b) == \A s \in Sources : a[s] <= b[s]
-\* entries of source s among the first i of the queue
-Cnt(t, s, i) == Cardinality({j \in DOMAIN queue[t] : j <= i /\ queue[t][j].src = s})
+\* the last entry of source s that has been handed to the row store
+Hand(t, s) == IF pend[t].off # 0 /\ pend[t].src = s /\ ~pend[t].offered THEN rd[t][s] - 1 ELSE rd[t][s]
 
 TypeOK ==
   /\ DOMAIN up = Tables /\ DOMAIN rd = Tables /\ DOMAIN pend = Tables /\ DOMAIN queue = Tables
@@ -59,13 +59,16 @@ Inv(t) ==
        /\ fl[t] # "idle" => (flw[t].offs = applied[t] /\ flw[t].set = UpTo(t, applied[t]))
        /\ fl[t] \in {"renamed", "swapped"} => durFile[t] = flw[t]
        /\ fl[t] = "swapped" => cur[t] = flw[t]
-       \* what has been read and not yet applied is in the queue, in order, with the table's verdict
+       \* what has been read and not yet applied is in the queue, in order, once, with the
+       \* table's verdict: exactly the entries after applied up to rd (less the one that has
+       \* been read and not handed over yet)
        /\ \A i \in DOMAIN queue[t] :
-            /\ queue[t][i].off = applied[t][queue[t][i].src] + Cnt(t, queue[t][i].src, i)
+            /\ queue[t][i].off > applied[t][queue[t][i].src] /\ queue[t][i].off <= Hand(t, queue[t][i].src)
             /\ queue[t][i].key = (<<t, queue[t][i].src, queue[t][i].off>> \in Keyed)
-       /\ \A s \in Sources :
-            rd[t][s] = applied[t][s] + Cnt(t, s, Len(queue[t]))
-                       + (IF pend[t].off # 0 /\ pend[t].src = s /\ ~pend[t].offered THEN 1 ELSE 0)
+            /\ \A j \in DOMAIN queue[t] : (i < j /\ queue[t][i].src = queue[t][j].src) => queue[t][i].off < queue[t][j].off
+       /\ \A s \in Sources : Hand(t, s) >= applied[t][s]
+       /\ \A e \in Ents : (e[2] > applied[t][e[1]] /\ e[2] <= Hand(t, e[1]))
+                              => \E i \in DOMAIN queue[t] : queue[t][i].src = e[1] /\ queue[t][i].off = e[2]
        /\ pend[t].off # 0 => (pend[t].src \in Sources /\ pend[t].off <= rd[t][pend[t].src]
                               /\ (~pend[t].offered => pend[t].off = rd[t][pend[t].src]))
        /\ pend[t].off = 0 => ~pend[t].offered
